@@ -125,7 +125,7 @@ func execC12(spec *RunSpec) *Result {
 	for k, v := range sfs.Fired() {
 		res.addStat("fault_fs_"+k, v)
 	}
-	if ref.Panic != "" || ref.Overrun {
+	if ref.Panic != "" || ref.Overrun || ref.Deadlock {
 		res.addStat("c11_class_events", 1)
 		noteCrash(res, spec, 0, refOp, ref)
 		return res
@@ -144,7 +144,7 @@ func execC12(spec *RunSpec) *Result {
 		return c
 	}
 	check := func(op OpSpec, o Outcome, what string) {
-		if o.Panic != "" || o.Overrun {
+		if o.Panic != "" || o.Overrun || o.Deadlock {
 			res.addStat("c11_class_events", 1)
 			noteCrash(res, narrowed(op), 0, op, o)
 			return
